@@ -8,6 +8,7 @@ import Driver.C06
 import Driver.C10
 import Driver.C12
 import Driver.C12Batch
+import Driver.C12Lit
 import Driver.C12Mon
 import Driver.C13
 import Driver.C13Heap
@@ -39,6 +40,7 @@ def suites : List (String × Driver.Suite) :=
   Driver.C10.suites ++
   Driver.C12.suites ++
   Driver.C12Batch.suites ++
+  Driver.C12Lit.suites ++
   Driver.C12Mon.suites ++
   Driver.C13.suites ++
   Driver.C13Heap.suites ++
